@@ -263,8 +263,11 @@ class Driver:
             p["dex"] = -1
             self.notes.append("sequence.json unreadable: %r" % (e,))
         p["tmp"] = sum(1 for f in _os.listdir(self.dir) if f.startswith(".sequence-"))
-        if not -FAR < p["dnext"] < FAR or not -FAR < p["ssn"] < FAR:
-            raise MachineryError("number out of the range representable in the trace: %r" % (p,))
+        for k in ("dnext", "ssn"):
+            if not -FAR < p[k] < FAR:
+                # far away from where this history takes place (TLC integers are 32 bit): clipped, noted
+                self.notes.append("%s = %d (relative to %d) is outside the range of this history" % (k, p[k], self.base))
+                p[k] = max(-FAR + 1, min(FAR - 1, p[k]))
         return p
 
     def emit(self, k, out, n=-1, echo="none", c=-1):
@@ -345,7 +348,11 @@ class Driver:
                 self.emit("protect", "crashed", c=r)
                 return
             outer, _ = r
-            self.emit("protect", "issued", n=piv_of(outer) - self.base)
+            n = piv_of(outer) - self.base
+            if not -FAR < n < FAR:
+                self.notes.append("issued number %d (relative to %d) is outside the range of this history" % (n, self.base))
+                n = max(-FAR + 1, min(FAR - 1, n))
+            self.emit("protect", "issued", n=n)
 
     def request_wire(self, n, echo):
         """Returns (wire, effective Echo label).  A number sent before is replayed unchanged."""
